@@ -73,10 +73,7 @@ fn case_from_json(v: &Value) -> Option<Case> {
 pub fn src_strategy(weights: [u32; 9], edge_weight: u32) -> BoxedStrategy<Src> {
     let corner_weight = edge_weight.min(3);
     if std::env::var("A5VERIF_C01_ONLY_CORNERS").is_ok() {
-        // experiment switch: only points within rounding .. 1e-6 cell sizes of a cell corner
-        return (gen::cell_spec(2, 29), 0u8..5, prop_oneof![1 => Just(-300.0f64), 1 => -14.0f64..-6.0], -0.5f64..1.5)
-            .prop_map(|(cell, corner, log_rho, frac)| Src::Corner { cell, corner, log_rho, frac })
-            .boxed();
+        return on_corner_strategy();
     }
     prop_oneof![
         corner_weight => (gen::cell_spec(2, 29), 0u8..5, prop_oneof![2 => -3.0f64..-0.7, 4 => -2.3f64..-1.0, 2 => -12.0f64..-3.0, 1 => Just(-300.0f64)], prop_oneof![
@@ -90,6 +87,14 @@ pub fn src_strategy(weights: [u32; 9], edge_weight: u32) -> BoxedStrategy<Src> {
             .prop_map(|(cell, edge, t, log_off, inside)| Src::Edge { cell, edge, t, log_off, inside }),
     ]
     .boxed()
+}
+
+/// Only points within rounding .. 1e-6 cell sizes of a cell corner (where every adjacent cell can fail
+/// the strict containment test and the lookup has to fall back; this is how defect D13 shows).
+pub fn on_corner_strategy() -> BoxedStrategy<Src> {
+    (gen::cell_spec(2, 29), 0u8..5, prop_oneof![1 => Just(-300.0f64), 1 => -14.0f64..-6.0], -0.5f64..1.5)
+        .prop_map(|(cell, corner, log_rho, frac)| Src::Corner { cell, corner, log_rho, frac })
+        .boxed()
 }
 
 impl Src {
@@ -339,6 +344,17 @@ pub fn run(tier: Tier, seed: u64) -> Report {
     if !rep.absorb("lookups", r) {
         return rep;
     }
+    let r = run_pbt(
+        "on-corner",
+        seed,
+        tier.pick(15_000, 500_000),
+        || (on_corner_strategy(), res_strategy(2), -3i8..=3, -180.0f64..180.0).prop_map(|(src, res, wrap, lon2)| Case { src, res, wrap, lon2 }).boxed(),
+        check_case,
+        case_json,
+    );
+    if !rep.absorb("on-corner", r) {
+        return rep;
+    }
     let r = run_pbt("guided-walks", seed, tier.pick(1_500, 60_000), walk_strategy, check_walk, walk_json);
     rep.absorb("guided-walks", r);
     rep
@@ -347,7 +363,7 @@ pub fn run(tier: Tier, seed: u64) -> Report {
 pub fn replay(section: &str, case: &Value) -> Option<Result<(), String>> {
     let mut st = Stats::default();
     Some(guarded(|| match section {
-        "lookups" => check_case(&case_from_json(case).ok_or("bad case")?, &mut st),
+        "lookups" | "on-corner" => check_case(&case_from_json(case).ok_or("bad case")?, &mut st),
         "guided-walks" => check_walk(&walk_from_json(case).ok_or("bad case")?, &mut st),
         _ => Err(format!("unknown section {}", section)),
     }))
